@@ -844,6 +844,15 @@ func (h *hist) step(c px.Context, st sx.Sexp) (res *entry, recv int, args []int)
 			var buf bytes.Buffer
 			serialization.NewSerializer(c, richData).Convert(r.v, serialization.NewJsonStreamer(&buf))
 		}), recv, nil
+	case "deser":
+		plainData := r.kind != 'm' && plain(r.v, true)
+		return call(func() {
+			ds := serialization.NewDeserializer(c, px.EmptyMap)
+			serialization.NewSerializer(c, richData).Convert(r.v, ds)
+			if v := ds.Value(); plainData {
+				out = v
+			}
+		}), recv, nil
 	case "resolve":
 		if r.kind == 'm' {
 			return marker("~"), recv, nil
@@ -950,7 +959,7 @@ func wellFormed(st sx.Sexp) bool {
 		return shape(isInt, isFn)
 	case "select", "reject", "selectpairs", "rejectpairs":
 		return shape(isInt, isPred)
-	case "sort", "flatten", "unique", "keys", "values", "entries", "asarray", "ptype", "dtype", "tostring", "tokey", "walk", "ser", "resolve":
+	case "sort", "flatten", "unique", "keys", "values", "entries", "asarray", "ptype", "dtype", "tostring", "tokey", "walk", "ser", "deser", "resolve":
 		return shape(isInt)
 	}
 	return false
@@ -1134,7 +1143,7 @@ func exec(c px.Context, op string, steps []sx.Sexp) core.Result {
 		}
 	}
 	// storage shape; `at` hands out a nested container whose identity the (one-level) model does not track
-	if h.tags["at"] || h.tags["get"] || h.tags["tree"] {
+	if h.tags["at"] || h.tags["get"] {
 		b.WriteString(" | shape n/a")
 	} else {
 		b.WriteString(" | shape " + h.shape())
@@ -1448,7 +1457,7 @@ func randHistory0(r *rand.Rand, length int) []sx.Sexp {
 		case k < 37:
 			s = randCtor(r)
 		default:
-			s = st([]string{"ptype", "dtype", "tostring", "tokey", "ser", "walk", "resolve", "ser"}[r.Intn(8)], rr)
+			s = st([]string{"ptype", "dtype", "tostring", "tokey", "ser", "walk", "resolve", "deser"}[r.Intn(8)], rr)
 			if r.Intn(6) == 0 {
 				s = st("equals", rr, pick())
 			}
